@@ -16,11 +16,11 @@ checks = {
  "C05": dict(engine="E1", ref="6/C05", technique=E1TECH,
    text="All if/else-if/else chains up to two else-if arms over a 31-value condition alphabet, and every nesting of depth <=2 (thorough 3) of if and range units over 21 rangeables (slices, arrays, pointers, maps, channels, ints(), index-providing and index-less custom rangers, nil, non-rangeable) x 6 variable forms x else.", note=E1NOTE+"; truthiness of zero-valued structs/arrays is treated as unspecified; 2-entry maps accept either iteration order"),
  "C07": dict(engine="E1", ref="6/C07", technique=E1TECH,
-   text="All statement sequences of <=3 over 10 atoms (:=, =, multi-assignment, discard, reads of x, y and '.') inside each of 21 frames (if, if-let, 5 range forms, block/yield/include with and without context and parameters, a parameter-less block yielded with a named argument, yield-with-content incl. content shown with its own context / twice / inside a range); v,ok lookup forms with absent keys;, nested to depth 2 (thorough 3), under 4 variable origins (local, VarMap, global, both); the caller's VarMap after Execute is compared too; loop-variable capture over every ranger kind.", note=E1NOTE),
+   text="All statement sequences of <=3 over 10 atoms (:=, =, multi-assignment, discard, reads of x, y and '.') inside each of 24 frames (if, if-let, 5 range forms, try and catch bodies of tries abandoned inside a range or an if-let, block/yield/include with and without context and parameters, a parameter-less block yielded with a named argument, yield-with-content incl. content shown with its own context / twice / inside a range); v,ok lookup forms with absent keys;, nested to depth 2 (thorough 3), under 4 variable origins (local, VarMap, global, both); the caller's VarMap after Execute is compared too; loop-variable capture over every ranger kind.", note=E1NOTE),
  "C08": dict(engine="E1", ref="6/C08", technique=E1TECH,
    text="All template sets with an extends chain of 1-3 and 0-2 imports in which every non-root template defines any subset of two block names (plain, conditional or nested placement) x 8 positions of the yield/definition site in the root layout; 3-parameter blocks with every default pattern x every ordered subset of named arguments x 3 block homes; content nesting, recursion and caller-scope variants; sibling sequences of <=3 over 8 items (content that shows the enclosing pending content, wrappers with/without parameters and content, in-place definitions with/without default content, yield content) at top level and inside an outer block yielded with content.", note=E1NOTE+"; positional yield arguments, parameters with neither argument nor default and content-less yields of content-showing blocks are unspecified"),
  "C09": dict(engine="E1", ref="6/C09", technique=E1TECH,
-   text="Call kind (include, exec, includeIfExists as action and as condition) x call site nested <=2 deep over 7 frames x context (none, value, nil-valued) x 6 name forms (one computed from the caller's context) x 3 referrer depths x 29 callee shapes (return at every position and through include / includeIfExists / yield given a context, return followed by each statement kind, extends chains 1-3, declarations, caller blocks, failing, missing); after the call the caller probes its variables, context and blocks.", note=E1NOTE+"; a range reached after a return, and a return inside an included template while the includer is inside a range, ; a return below includeIfExists while an exec is in progress is unspecified"),
+   text="Call kind (include, exec, includeIfExists as action and as condition, exec as an argument of isset) x call site nested <=2 deep over 7 frames x context (none, value, nil-valued) x 6 name forms (one computed from the caller's context) x 3 referrer depths x 29 callee shapes (return at every position and through include / includeIfExists / yield given a context, return followed by each statement kind, extends chains 1-3, declarations, caller blocks, failing, missing); after the call the caller probes its variables, context and blocks.", note=E1NOTE+"; a range reached after a return, and a return inside an included template while the includer is inside a range, ; a return below includeIfExists while an exec is in progress is unspecified"),
  "C12": dict(engine="E1", ref="6/C12", technique=E1TECH,
    text="~85 failure classes x 4 files (executed, included, imported library block, root layout) x 7 line layouts x 7 nestings: Execute must return an error (no panic), the writer must hold exactly the reference prefix, and for failures jet detects itself the message must name the failing file and a line inside the failing action's opening delimiters.", note=E1NOTE+"; the message format is matched loosely (first template path in the message, first integer after it); failures reported by built-in functions (len, isset, map, exec) only need to be errors"),
  "C13": dict(engine="E1", ref="6/C13", technique=E1TECH,
